@@ -227,7 +227,13 @@ where
                 Ok("ok".into())
             }
             "GC" => {
-                let n = self.mref.with_manager_shared(|m| m.gc());
+                // Under the exclusive lock: the manager's background collector (woken when the
+                // node count passes the high-water mark of a small manager) holds the shared
+                // lock while it runs, and `Manager::gc` returns 0 without collecting when another
+                // collection is in progress.  With the exclusive lock this explicit collection
+                // can neither be skipped nor overlap with the background one, so "GC; SNAP"
+                // observes a completed collection (the concurrent case belongs to C07).
+                let n = self.mref.with_manager_exclusive(|m| m.gc());
                 Ok(format!("collected {n}"))
             }
             "ORDER" | "ORDERSEQ" => {
@@ -674,9 +680,25 @@ where
                             if i == j {
                                 continue;
                             }
-                            match x0.ite(&base[i], &base[j]) {
-                                Ok(f) => keep.push(f),
-                                Err(_) => {
+                            // A background collection running right now holds the slots it
+                            // frees in its thread-local list until it is done; an allocation
+                            // failure in that window is transient.  Retry for a while: only a
+                            // failure that persists although nothing else runs is the probe's
+                            // out-of-memory point.
+                            let mut tries = 0;
+                            let r = loop {
+                                match x0.ite(&base[i], &base[j]) {
+                                    Ok(f) => break Some(f),
+                                    Err(_) if tries < 40 => {
+                                        tries += 1;
+                                        std::thread::sleep(Duration::from_millis(3));
+                                    }
+                                    Err(_) => break None,
+                                }
+                            };
+                            match r {
+                                Some(f) => keep.push(f),
+                                None => {
                                     hit = true;
                                     break 'outer;
                                 }
